@@ -26,6 +26,9 @@ RULE = ('cases: (encoding in utf-8/utf-16/utf-32/latin-1, list of strings, byte-
         'exception class escapes (UnicodeDecodeError / UnicodeError "no BOM" / UnicodeEncodeError) and the '
         'checker compares that too; the oracle only requires of them what CPython\'s one-shot codec says: if '
         'bytes.decode / str.encode of the whole input raises, the wrapper must not complete silently. '
+        'CONCURRENT SUBSCRIBERS: for every well-formed case with two chunks or more, one decode pipeline over a hot '
+        'source (rx Subject) has two subscribers live at once; each must receive the text a single subscriber '
+        'receives and complete. '
         'RE-SUBSCRIPTION (field subs; ~35% of the random cases of every kind, plus every 1-cut placement of the '
         'short texts): ONE operator object rs.data.encode(enc) / rs.data.decode(enc) - and, share=pipe, one and the '
         'same pipeline object op(source) - is subscribed 2-4 times in a row; a subscription is either complete or '
@@ -905,6 +908,24 @@ def run_impl(case):
     d = drive(rs.data.decode(enc), chunks)
     obs = {'enc_steps': [[list(b) for b in st] for st in e['steps']], 'enc_err': e['err'], 'enc_end': e['end'],
            'dec_steps': [[cps(t) for t in st] for st in d['steps']], 'dec_err': d['err'], 'dec_end': d['end']}
+    if d['err'] is None and d['end'] == 'completed' and len(chunks) >= 2:
+        # two subscribers LIVE AT THE SAME TIME on one decode pipeline over a hot source: each subscription decodes
+        # the stream for itself (pending bytes and BOM state belong to the subscription, not to the pipeline)
+        from rx.subject import Subject
+        subj = Subject()
+        pipe = rs.data.decode(enc)(subj)
+        outs, ends = ([], []), ([], [])
+        for q in (0, 1):
+            pipe.subscribe(on_next=outs[q].append, on_error=lambda e, q=q: ends[q].append('error:' + type(e).__name__),
+                           on_completed=lambda q=q: ends[q].append('completed'))
+        try:
+            for c in chunks:
+                subj.on_next(c)
+            subj.on_completed()
+        except Exception as e:
+            ends[0].append('raised:' + type(e).__name__)
+        obs['dual'] = [{'text': cps(''.join(outs[q])), 'end': ends[q]} for q in (0, 1)]
+        obs['dual_want'] = cps(''.join(t for st in d['steps'] for t in st))
     if case.get('subs'):
         plan = case['subs']
         es = resubscribe(lambda: rs.data.encode(enc), strs, [None if p is None else p[1] for p in plan], case['share'])
@@ -1027,6 +1048,12 @@ def oracle(case, obs):
     if case['kind'] == 'scale':
         return oracle_scale(case, obs)
     f = judge(case, obs)
+    if not f and obs.get('dual'):
+        for q, r in enumerate(obs['dual']):
+            if r['text'] != obs['dual_want'] or r['end'] != ['completed']:
+                return {'sig': '%s:concurrent-subscribers' % case['enc'],
+                        'what': 'two subscribers live at once on one decode pipeline: subscriber #%d got %s %s, a single '
+                                'subscriber gets %s completed' % (q + 1, str(r['text'])[:120], r['end'], str(obs['dual_want'])[:120])}
     if f or not case.get('subs'):
         return f
     enc = case['enc']
